@@ -114,6 +114,8 @@ def class_tables(draw, max_classes=4, kinds=("dict", "dict", "slots", "slots", "
                 nme = pool.pop(draw(st.integers(0, len(pool) - 1)))
                 vis = draw(st.sampled_from(vis_pool))
                 spec["fields"].append({"pub": nme, "prot": "_" + nme, "priv": "__" + nme}[vis])
+        if kind in ("serial_list", "serial_dict"):
+            spec["serial_form"] = draw(st.sampled_from(["method", "method", "method", "instance-partial"]))
         if kind in ("dict", "slots"):
             # behaviour the class has beyond its fields: it is still an attribute-dict / slotted class
             spec["extras"] = draw(st.lists(st.sampled_from(EXTRAS), max_size=2, unique=True)) if draw(st.integers(0, 3)) == 0 else []
@@ -249,7 +251,18 @@ class Builder(object):
             def _serialize(self, _kind=kind):
                 attrs = {k: v for k, v in self.__dict__.items() if k.startswith("a_")}
                 return (list(self.ctor_a) if _kind == "serial_list" else dict(self.ctor_k)), attrs
-            ns = {"__init__": __init__, self.serialize_method: _serialize, "__module__": modname}
+            if spec.get("serial_form") == "instance-partial":
+                # the serialisation member is a callable stored on the instance (a functools.partial), not a method of the class
+                import functools
+                smethod = self.serialize_method
+                plain_init = __init__
+
+                def __init__(self, *a, **k):
+                    plain_init(self, *a, **k)
+                    self.__dict__[smethod] = functools.partial(_serialize, self)
+                ns = {"__init__": __init__, "__module__": modname}
+            else:
+                ns = {"__init__": __init__, self.serialize_method: _serialize, "__module__": modname}
             cls = type(name, bases, ns)
         else:
             # class body through exec so that name mangling is the interpreter's own
